@@ -47,7 +47,7 @@ Proof.
   pose proof (fresh_not_in_table sh SO) as Hfresh.
   assert (Hpush : NoDup (match sh_header sh with Some h => [h] | None => [] end ++ sh_order sh ++ [length (sh_rows sh)])).
   { rewrite app_assoc. apply NoDup_snoc; assumption. }
-  destruct o as [|r|r| |n| |n|ow tm g cb]; cbn [shape_step]; try exact ND; try exact Hpush.
+  destruct o as [|r|r| |n| |n|ow tm g cb|r']; cbn [shape_step]; try exact ND; try exact Hpush.
   - destruct (nth_error (sh_rows sh) r) as [[[n|] att]|]; exact ND.
   - cbn [op_wf] in W. destruct (nth_error (sh_rows sh) r) as [[[n|] [|]]|] eqn:E; try discriminate.
     unfold rows_in_table. cbn [sh_header sh_order]. rewrite app_assoc. apply NoDup_snoc; [exact ND|].
